@@ -684,7 +684,9 @@ def compare_direct(case, impl, ans):
     if "error" in impl:
         if impl.get("stage") == "ctor":
             return None  # refused by ParameterValues (the WF hypothesis of the theorems); not modelled
-        return None if mb.get("err") == impl["error"] else f"impl raises {impl['error']}, model {mb}"
+        # a declaration the code refuses is refused by the model: WHICH exception class says so (an `assert`, a
+        # ValueError) is not part of the statement and is only counted in the evidence
+        return None if "err" in mb else f"impl raises {impl['error']}, model accepts: {mb}"
     if "err" in mb:
         return f"impl accepts, model raises {mb['err']}"
     logs_flat = [lg for _, _, lg in box(vs)]
